@@ -24,6 +24,11 @@ var checks = map[string]checkSpec{
 		Quick:     40 * time.Second, Thorough: 12 * time.Minute, Level: "exploration",
 		Rule: "The exported ConsumerGroup API driven directly by 1-3 members: Next loops, 0-4 functions per generation (prompt, lingering, self-exiting, late-started), Close at a seeded instant, coordinator answers drawn from success / error codes / cuts / slow / stalls on every group API, evictions, partition additions with the watcher; oracles R1-R6 over function lifetimes and the coordinator journal (exact simulated instants in fault-free timing).",
 	},
+	"C09": {
+		Scenarios: []scnSpec{{Name: "writer", Params: "close=race", Share: 0.4}, {Name: "group", Params: "lifecycle=1", Share: 0.35}, {Name: "cgroup", Share: 0.25}},
+		Quick:     60 * time.Second, Thorough: 15 * time.Minute, Level: "exploration",
+		Rule: "Close placed by the seeded scheduler anywhere inside concurrent WriteMessages calls (Writer), during joins, syncs, rebalances, fetches and commits with healthy, slow, erroring or silent coordinators (Reader, ConsumerGroup); bounded return of Close, completions before Close returns, io.ErrClosedPipe / io.EOF after Close, context errors at the instant the context ends, no request after Close, LeaveGroup, and a goroutine/connection census after the network time-outs.",
+	},
 	"C07": {
 		Scenarios: []scnSpec{{Name: "writer", Params: "focus=order", Share: 1}},
 		Quick:     35 * time.Second, Thorough: 10 * time.Minute, Level: "exploration",
